@@ -208,6 +208,71 @@ fn verif_reassembler_write_stale_segment() {
     core::mem::forget(r);
 }
 
+// Second cut of write_reader_impl: instead of storing, CHECK what write_reader hands to the
+// slot-list code - these are exactly the preconditions that verif_reassembler_allocate_slot (and
+// Slot::try_write_reader) assume: the segment has been trimmed to the read cursor and its end has
+// been validated against (and recorded in) the cursors.
+fn stub_write_reader_impl_pre<R>(this: &mut Reassembler, reader: &mut R) -> Result<(), R::Error>
+where
+    R: Reader + ?Sized,
+{
+    let c = this.cursors;
+    let cur = reader.current_offset().as_u64();
+    let end = cur + reader.buffered_len() as u64;
+    if !reader.buffer_is_empty() {
+        assert!(cur >= c.start_offset);
+    }
+    assert!(end <= c.max_recv_offset || reader.buffer_is_empty());
+    assert!(c.final_offset == UNKNOWN_FINAL_SIZE || end <= c.final_offset);
+    if let Some(fin) = reader.final_offset() {
+        assert!(c.final_offset == fin.as_u64());
+    }
+    assert!(invariant(&c));
+    Ok(())
+}
+
+// write_reader for ANY segment of up to 4 bytes (stale, overlapping the read cursor, or new):
+// rejected exactly per the final-size rules with the cursors untouched, otherwise the slot-list
+// code is entered with a trimmed, validated segment (checked inside the stub above).
+#[cfg_attr(kani, kani::proof)]
+#[cfg_attr(kani, kani::unwind(6))]
+#[cfg_attr(kani, kani::stub(Reassembler::write_reader_impl, stub_write_reader_impl_pre))]
+fn verif_reassembler_write_reader_prework() {
+    let before = any_cursors();
+    let mut r = Reassembler { slots: VecDeque::new(), cursors: before };
+    let off: u64 = kani::any();
+    let len: usize = kani::any();
+    kani::assume(len <= 4 && off <= MAX - 4);
+    let end = off + len as u64;
+    let is_fin: bool = kani::any();
+    let data = [0u8; 4];
+    let res = if is_fin {
+        r.write_at_fin(VarInt::new(off).unwrap(), &data[..len])
+    } else {
+        r.write_at(VarInt::new(off).unwrap(), &data[..len])
+    };
+    let known = before.final_offset != UNKNOWN_FINAL_SIZE;
+    let reject = if is_fin {
+        if known { end != before.final_offset } else { end < before.max_recv_offset }
+    } else {
+        known && end > before.final_offset
+    };
+    if reject {
+        assert!(matches!(res, Err(Error::InvalidFin)));
+        assert!(r.cursors == before);
+        kani::cover!(!is_fin, "data beyond the final size rejected by write_reader");
+        kani::cover!(is_fin && end < before.start_offset, "stale FIN rejected by write_reader");
+    } else {
+        assert!(res.is_ok());
+        assert!(r.cursors.start_offset == before.start_offset);
+        assert!(r.cursors.max_recv_offset == core::cmp::max(before.max_recv_offset, end));
+        assert!(r.cursors.final_offset == if is_fin { end } else { before.final_offset });
+        kani::cover!(off < before.start_offset && end > before.start_offset, "segment overlapping the read cursor trimmed");
+        kani::cover!(off > before.max_recv_offset, "segment beyond everything seen (gap)");
+    }
+    core::mem::forget(r);
+}
+
 // ---- generated by tools/fixup.py: native replay entry ----
 #[cfg(not(kani))]
 #[test]
@@ -217,5 +282,6 @@ fn verif_replay() {
         ("verif_reassembler_skip_cursors", verif_reassembler_skip_cursors),
         ("verif_reassembler_allocate_slot", verif_reassembler_allocate_slot),
         ("verif_reassembler_write_stale_segment", verif_reassembler_write_stale_segment),
+        ("verif_reassembler_write_reader_prework", verif_reassembler_write_reader_prework),
     ]);
 }
